@@ -16,10 +16,12 @@
 //	          chain hash, feature bits, extra data ...), each in three graph states;
 //	order     all sequences up to the depth bound over an alphabet of valid messages
 //	          and corrupted twins (duplicates, updates before their channel, stale
-//	          and equal timestamps, a block event releasing held messages), explored
-//	          breadth-first with canonical-state de-duplication (engine seqmc);
-//	          once with a fresh peer per message, once with one peer for everything
-//	          (reject cache and ban score in play; no de-duplication there).
+//	          and equal timestamps, a block event releasing held messages, bursts of
+//	          2-3 messages handed over back to back and processed concurrently),
+//	          explored breadth-first with canonical-state de-duplication (engine
+//	          seqmc) on the bbolt and on the sqlite store; once with a fresh peer per
+//	          message, once with one peer for everything (reject cache and ban score
+//	          in play; no de-duplication there).
 //
 // Oracle (reference model in model_test.go), evaluated after every message at
 // quiescence:
@@ -182,6 +184,18 @@ func c20Kind(m lnwire.Message) string {
 }
 
 func c20VerdictClass(v string) string {
+	if parts := strings.Split(v, " & "); len(parts) > 1 {
+		set := map[string]bool{}
+		for _, p := range parts {
+			set[c20VerdictClass(p)] = true
+		}
+		var ks []string
+		for k := range set {
+			ks = append(ks, k)
+		}
+		sort.Strings(ks)
+		return strings.Join(ks, "+")
+	}
 	switch {
 	case v == "ok" || v == "pending":
 		return v
@@ -520,6 +534,8 @@ func c20Confirm(t *testing.T, f c20Finding, stats *c20Stats) bool {
 type c20Tier struct {
 	orderDepth, orderDepthSQL, samePeerDepth int
 	orderAlphabet, samePeerAlphabet          []string
+	wideAlphabet                             []string // optional second fresh-peers space: more letters, one level shallower
+	wideDepth                                int
 	byteBases                                []string // messages whose every byte is corrupted
 	byteStride                               int      // 1 = every offset
 	semSQL, bytesSQL                         bool
@@ -534,12 +550,15 @@ var c20AlphabetCore = []string{
 func c20Tiers(thorough bool) c20Tier {
 	var tr c20Tier
 	if thorough {
+		base := append(append([]string{}, c20AlphabetCore...), "xCA.btc2:=evil,resigned", "CA3", "blk",
+			"CA&CU0a&NA1", "CU0b&CA", "CU0a&CU0b")
 		tr = c20Tier{
 			orderDepth: 6, orderDepthSQL: 5, samePeerDepth: 4,
-			orderAlphabet: append(append([]string{}, c20AlphabetCore...), "xCA.btc2:=evil,resigned", "CA3", "blk",
-				"CA&CU0a&NA1", "CU0b&CA", "CU0a&CU0b",
+			orderAlphabet: base,
+			wideAlphabet: append(append([]string{}, base...),
 				"NA1b", "CU1b", "CU3", "xCA.node1:=evil,resigned", "xCA.scid=tiny-amount", "xCU.tiny-channel,max>capacity",
 				"xCA.sigB2=evil&CA", "CU1a&xCU1.sig=other-node&CA"),
+			wideDepth:        5,
 			samePeerAlphabet: append(append([]string{}, c20AlphabetCore...), "xCA.btc2:=evil,resigned"),
 			byteBases:        []string{"CA", "CU0b", "CU1b", "NA1b", "NA2"},
 			byteStride:       1, semSQL: true, bytesSQL: true, deadline: 26 * time.Minute,
@@ -840,11 +859,15 @@ func c20Worker(t *testing.T) {
 		depth    int
 		dedup    bool
 	}
+	// cheapest first, so that a deadline (if any) cuts the largest space
 	spaces := []spaceDef{
-		{"order/fresh-peers/kv", c20Cfg{Backend: "kv"}, tier.orderAlphabet, tier.orderDepth, true},
 		{"order/same-peer/kv", c20Cfg{Backend: "kv", SamePeer: true}, tier.samePeerAlphabet, tier.samePeerDepth, false},
 		{"order/fresh-peers/sql", c20Cfg{Backend: "sql"}, tier.orderAlphabet, tier.orderDepthSQL, true},
 	}
+	if len(tier.wideAlphabet) > 0 {
+		spaces = append(spaces, spaceDef{"order/fresh-peers-wide/kv", c20Cfg{Backend: "kv"}, tier.wideAlphabet, tier.wideDepth, true})
+	}
+	spaces = append(spaces, spaceDef{"order/fresh-peers/kv", c20Cfg{Backend: "kv"}, tier.orderAlphabet, tier.orderDepth, true})
 	var states, transitions, replays int64
 	spaceCov := map[string]any{}
 	for i, sp := range spaces {
@@ -868,7 +891,7 @@ func c20Worker(t *testing.T) {
 			caps = append(caps, "nondeterminism_detected in "+sp.name)
 		}
 		// determinism re-check on the first (de-duplicated) space, one level shallower
-		if i == 0 && res.Exhaustive && sp.depth >= 2 {
+		if i == len(spaces)-1 && res.Exhaustive && sp.depth >= 2 {
 			scratch := newC20Stats()
 			a := c20OrderSpace(t, sp.name, sp.cfg, sp.alphabet, sp.depth-1, sp.dedup, scratch, deadline)
 			var want int64
